@@ -14,7 +14,7 @@ Import ListNotations.
 Require Import Clarabel.Base.Ops Clarabel.Csc.Model Clarabel.Kkt.Spec Clarabel.Kkt.Model Clarabel.Kkt.Stmts.
 Require Import Clarabel.Kkt.LemmasSchur Clarabel.Kkt.LemmasVals Clarabel.Kkt.LemmasSpec Clarabel.Kkt.LemmasDiag.
 Require Import Clarabel.Kkt.LemmasWf Clarabel.Kkt.LemmasFill Clarabel.Kkt.LemmasRefine Clarabel.Kkt.LemmasCone Clarabel.Kkt.LemmasCount Clarabel.Kkt.LemmasRaw.
-Require Import Clarabel.Kkt.LemmasOrder Clarabel.Kkt.LemmasDiagPos Clarabel.Kkt.LemmasAssemble Clarabel.Kkt.LemmasTril.
+Require Import Clarabel.Kkt.LemmasOrder Clarabel.Kkt.LemmasDiagPos Clarabel.Kkt.LemmasAssemble Clarabel.Kkt.LemmasTril Clarabel.Kkt.LemmasDense Clarabel.Kkt.LemmasUpdate Clarabel.Kkt.LemmasSchurDense.
 
 (** eliminating the auxiliary variables of a sparse expansion reproduces the cone's H *)
 Theorem C11_soc_expansion_schur : stmt_soc_expansion_schur.
@@ -64,6 +64,29 @@ Proof. exact assemble_refines_spec_tril_ok. Qed.
 (** THE refinement theorem of C11, both triangles *)
 Theorem C11_assemble_refines_spec : stmt_assemble_refines_spec.
 Proof. exact assemble_refines_spec_ok. Qed.
+(** kkt_spec_dense: dense meaning of the intended matrix (Csc get) *)
+Theorem C11_kkt_get_entry : stmt_kkt_get_entry.
+Proof. exact kkt_get_entry_ok. Qed.
+Theorem C11_kkt_get_none : stmt_kkt_get_none.
+Proof. exact kkt_get_none_ok. Qed.
+Theorem C11_kkt_spec_dense : stmt_kkt_spec_dense.
+Proof. exact kkt_spec_dense_ok. Qed.
+Theorem C11_kkt_spec_dense_tril : stmt_kkt_spec_dense_tril.
+Proof. exact kkt_spec_dense_tril_ok. Qed.
+(** the chain closed for the sparse SOC: Schur complement of the dense object *)
+Theorem C11_soc_schur_dense : stmt_soc_schur_dense.
+Proof. exact soc_schur_dense_ok. Qed.
+(** value updates through the maps *)
+Theorem C11_update_values_frame : stmt_update_values_frame.
+Proof. exact update_values_frame_ok. Qed.
+Theorem C11_scale_values_frame : stmt_scale_values_frame.
+Proof. exact scale_values_frame_ok. Qed.
+Theorem C11_update_data_through_maps : stmt_update_data_through_maps.
+Proof. exact update_data_through_maps_ok. Qed.
+(** the sign vector of the assembled system *)
+Theorem C11_dsigns_of_assemble : stmt_dsigns_of_assemble.
+Proof. exact dsigns_of_assemble_ok. Qed.
+
 (** every position stored at most once; the diagonal maps point at the diagonal entries, which
     are the last entries of their columns (Triu) *)
 Theorem C11_positions_unique : stmt_positions_unique.
